@@ -18,6 +18,7 @@ CONSTANTS VLo, VHi,        \* spike values VLo..VHi
 VARIABLES inp, out, pc
 vars == <<inp, out, pc>>
 Neg1 == -1
+Neg4 == -4
 Neg2 == -2
 Neg20 == -20
 Vals == VLo..VHi
